@@ -81,7 +81,8 @@ ASSUMPTIONS = [
 
 # ----------------------------------------------------------------------------- pools
 
-NUMS = [-1000000, -3, -1, 0, 0.5, 1, 2, 2.5, 3, 7, 10, 99.5, 100, 1000000]
+NUMS = [-1000000, -3, -1, 0, 0.5, 1, 2, 2.5, 3, 7, 10, 99.5, 100, 1000000,
+        0.3, 0.1 + 0.2, 2 ** 53, 2 ** 53 + 2]      # neighbouring floats: equal means equal
 TEXTS = ['a', 'A', 'ab', 'Ab', 'abc', 'b', 'B', 'ba', 'c', 'm', 'x', 'Zed', 'zed', '0', '1', '2', '10', '5',
          'a1', '100',
          # punctuation between Z and a sorts before letters in Excel; folding case the other way moves it behind
@@ -360,7 +361,13 @@ def count_match(ctx, v, vec, emt, mt, firm, acc):
 def check_vh(ctx, case):
     v, t, idx, rl = case['v'], [list(r) for r in case['t']], case['idx'], case['rl']
     seen = Seen(ctx, case)
-    exact = rl is not None and not rl
+    blank_rl = rl == 'blank'
+    if blank_rl:
+        # a range_lookup argument that is there but empty (=VLOOKUP(v,t,2,) or a reference to a blank cell) is
+        # FALSE to Excel: the function receives None, which is not "omitted"
+        rl = None
+        ctx.count('vh:blank-range_lookup')
+    exact = blank_rl or (rl is not None and not rl)
     tT = L.transpose(t)
     R, C = len(t), len(t[0])
     col = [row[0] for row in t]
@@ -372,7 +379,7 @@ def check_vh(ctx, case):
     def ok_total(val):
         return is_code(val) or any(scalar_ok(val, x) for x in cells_of_t)
 
-    tail = () if rl is None else (rl,)
+    tail = (None,) if blank_rl else () if rl is None else (rl,)
     outs = {}
     for func, tab in (('vlookup', t), ('hlookup', tT)):
         out = outs[func] = call(func, v, tup(tab), idx, *tail)
@@ -745,9 +752,9 @@ def index_sweep(ctx):
                     ctx.count('mini:index-sweep')
             for v in (1, R, R + 0.5, 0, 'x'):
                 for idx in range(-1, C + 3):
-                    for rl in (False, True, None):
+                    for rl in (False, True, None, 'blank'):
                         check_case(ctx, {'kind': 'vh', 'v': v, 't': t, 'idx': idx, 'rl': rl,
-                                         'wb': (idx == C and rl is False and v == 1)})
+                                         'wb': (idx == C and rl in (False, 'blank') and v in (1, R + 0.5))})
                         ctx.count('mini:index-sweep')
 
 
